@@ -343,7 +343,21 @@ def rule_selector_above_encoding(ctx):
             for ps in fn.sites():
                 nd = ps.node
                 if ps.si is not None and nd["k"] == "assign" and nd["rv"]["k"] == "aggregate" and nd["rv"]["agg"].get("kind") == "closure" and nd["rv"]["agg"].get("path") == b.path:
-                    return encoded_before(ps, depth + 1)
+                    if encoded_before(ps, depth + 1):
+                        return True
+                    # the closure is handed to a function that loads the solver and then calls it (`merge_component_models(|cc_af, solver| ..)`):
+                    # the places where that function calls its parameter
+                    inv = []
+                    for x in fn.calls():
+                        t = prog.body_for_callee(callee_of(x), fn) if callee_of(x) else None
+                        if t is None or t.kind == "closure":
+                            continue
+                        for k, a in enumerate(x.node["args"]):
+                            if any(o.kind == "agg" and o.site is not None and (o.site.bb, o.site.si) == (ps.bb, ps.si) for o in origins(fn, a, transparent=())):
+                                for y in t.calls():
+                                    if callee_matches(callee_of(y), r"ops::function::(FnMut::call_mut|Fn::call|FnOnce::call_once)$") and y.node["args"] and any(o.kind == "param" and o.data == k + 1 and not o.fields for o in origins(t, y.node["args"][0], transparent=())):
+                                        inv.append(y)
+                    return bool(inv) and all(encoded_before(y, depth + 1) for y in inv)
             return False
         callers = prog.callers_of(fn)
         return bool(callers) and all(encoded_before(cs, depth + 1) for cs in callers)
